@@ -61,6 +61,7 @@ pub fn pred_int(name: &str) -> Arc<dyn Fn(i64) -> bool + Send + Sync> {
         "even" => Arc::new(|x| x.rem_euclid(2) == 0),
         "odd" => Arc::new(|x| x.rem_euclid(2) == 1),
         "gt1" => Arc::new(|x| x > 1),
+        "gt11" => Arc::new(|x| x > 11),
         "all" => Arc::new(|_| true),
         "none" => Arc::new(|_| false),
         _ => panic!("harness: unknown predicate {name}"),
